@@ -61,6 +61,10 @@ func main() {
 		listCases(os.Stdout)
 	case "l2order":
 		os.Exit(l2Order(os.Args[2:]))
+	case "l2answers":
+		os.Exit(l2Answers(os.Args[2:]))
+	case "l2oversize":
+		os.Exit(l2Oversize(os.Args[2:]))
 	case "l2":
 		os.Exit(l2Parent(os.Args[2:]))
 	case "l2child":
